@@ -48,7 +48,7 @@ theorem panicking_once_stays_retired {R : Type} (I : RegImpl R) (hI : I.Lawful) 
 
 /-! ### obligations on the control flow of the CURRENT source (`Ebu/Generated/Flow.lean`, regenerated from /repo on every run) -/
 
-/-- OBLIGATION: the recovering `defer` is registered before anything else in `callHandlerWithContext`; inside it `recover`, then the panic handler (only if something was recovered, once), then the handler-complete callback; the Sequential mutex is unlocked by a `defer` registered right after the lock; no early return -/
+/-- OBLIGATION: `callHandlerWithContext` takes the Sequential mutex first (unlock deferred right after the lock, then the context is checked again – the only early return), then registers the recovering `defer`; inside it `recover`, then the panic handler (only if something was recovered, once), then the handler-complete callback -/
 theorem flow_handler_bracket : Ebu.Flow.handlerBracket = true := by decide +kernel
 
 /-- OBLIGATION: an async goroutine gives its in-flight count back by a `defer` registered first (a panicking handler cannot leak it: `Wait` still returns) -/
